@@ -190,6 +190,10 @@ def is_int(v):
     return (isinstance(v, int) and not isinstance(v, bool)) or (isinstance(v, Sym) and v.ty == 'int')
 
 
+def is_num(v):
+    return is_int(v) or (isinstance(v, Sym) and v.ty == 'real')
+
+
 def is_boolv(v):
     return isinstance(v, bool) or (isinstance(v, Sym) and v.ty == 'bool')
 
@@ -407,7 +411,7 @@ def method_of(I, v, name, node):
             raise _raise(AttributeError, name)
         return StrMethod(v, name)
     if isinstance(v, PList):
-        if name in ('append', 'extend', 'index', 'pop', 'copy', 'insert', 'remove', 'count', 'sort', 'clear',
+        if name in ('add', 'append', 'extend', 'index', 'pop', 'copy', 'insert', 'remove', 'count', 'sort', 'clear',
                     '__getitem__', '__len__', '__add__', '__iter__', '__eq__'):
             return ListMethod(v, name)
         raw = I.class_attr(v.cls, name) if v.cls is not list else None
@@ -446,7 +450,7 @@ def list_to_seq(I, pl, ety, node=None):
     srt = z3sort(ety)
     if not pl.items:
         return z3.Empty(z3.SeqSort(srt))
-    us = [z3.Unit(lift(x)) for x in pl.items]
+    us = [z3.Unit(lift_as(x, ety)) for x in pl.items]
     return us[0] if len(us) == 1 else z3.Concat(*us)
 
 
@@ -458,6 +462,11 @@ def list_append(I, pl, v, node):
 
 
 def lift_as(v, ety, node=None):
+    if isinstance(ety, tuple) and ety[0] == 'obj':
+        t = getattr(v, 'term', None)
+        if t is None:
+            raise _oos('object without an abstract term stored in a symbolic list', node)
+        return t
     if isinstance(v, tuple) and isinstance(ety, tuple) and ety[0] == 'tuple':
         return ety[2](*[lift_as(x, t, node) for x, t in zip(v, ety[1])])
     if v is None and isinstance(ety, tuple) and ety[0] == 'z3':
@@ -492,6 +501,10 @@ class ListMethod(Model):
         pl, name = self.recv, self.name
         if name == 'append':
             list_append(I, pl, args[0], node)
+            return None
+        if name == 'add' and getattr(pl, 'is_set', False) and pl.concrete:
+            if not I.to_bool(contains(I, pl, args[0], node), node):
+                pl.items.append(args[0])
             return None
         if name == 'extend':
             list_extend(I, pl, args[0], node)
@@ -630,6 +643,8 @@ def wrap_elt(e, ety):
         return mk_int(e)
     if ety == 'bool':
         return mk_bool(e)
+    if ety == 'real':
+        return Sym(e, 'real')
     if isinstance(ety, tuple) and ety[0] == 'tuple':
         # ('tuple', (tys...), constructor, accessors)
         return tuple(wrap_elt(acc(e), t) for acc, t in zip(ety[3], ety[1]))
@@ -668,6 +683,10 @@ def m_set(I, args, kwargs, node):
         s = DM.as_key_set(args[0])
         if s is not None:
             return s
+    if not args:
+        r = PList([])           # a concrete-spine set: membership by ==, add() appends when absent
+        r.is_set = True
+        return r
     raise _oos('set() of %r' % (args[0] if args else None,), node)
 
 
@@ -881,11 +900,20 @@ def compare(I, op, a, b, node):
         if isinstance(op, ast.NotIn):
             r = mk_bool(T.NOT(T.zbool(lift(r) if isinstance(r, Sym) else r)))
         return r
-    if is_int(a) and is_int(b):
+    if is_num(a) and is_num(b):
         f = {ast.Lt: _op.lt, ast.LtE: _op.le, ast.Gt: _op.gt, ast.GtE: _op.ge}[type(op)]
         if isinstance(a, int) and isinstance(b, int):
             return f(a, b)
         return mk_bool(f(lift(a), lift(b)))
+    if isinstance(a, tuple) and isinstance(b, tuple) and len(a) == len(b) and all(is_num(x) for x in a + b):
+        # lexicographic order on tuples of numbers
+        strict = isinstance(op, (ast.Lt, ast.Gt))
+        less = isinstance(op, (ast.Lt, ast.LtE))
+        acc = z3.BoolVal(not strict)
+        for x, y in reversed(list(zip(a, b))):
+            xe, ye = lift(x), lift(y)
+            acc = z3.Or(xe < ye if less else xe > ye, z3.And(xe == ye, acc))
+        return mk_bool(acc)
     if is_concrete(a) and is_concrete(b):
         f = {ast.Lt: _op.lt, ast.LtE: _op.le, ast.Gt: _op.gt, ast.GtE: _op.ge}[type(op)]
         return f(to_host(a), to_host(b))
